@@ -104,12 +104,12 @@ let handle (line : string) : string =
             let (b, r) = run_extend b0 ops in
             if sem <> "fromiter" then Buffer.add_string bw (string_of_n (b_count b));
             (b, [r], (sem = "extend") || (match r with Ok _ -> true | _ -> false))) in
-       let fin = if alive then b_finish summer b1 else Err EChecksumMissing in
+       let fin = if alive then b_finish_full summer b1 else Err EChecksumMissing in
        let mstr = (match fin with
-           | Ok bs -> "bytes=" ^ hex_of_bytes bs
+           | Ok (bs, _) -> "bytes=" ^ hex_of_bytes bs
            | Panic -> "PANIC" | Err _ -> "nofst") in
-       let (((h, m), e), rj) = b_stats b1 in
-       let m_out = mstr ^ ";bw=" ^ Buffer.contents bw ^ ";st=" ^ (if fe = "raw" || fe = "raw_loop" then String.concat "," (List.map string_of_n [h; m; e; rj]) else "na") in
+       let (((h, m), e), rj) = (match fin with Ok (_, st) -> st | _ -> b_stats b1) in
+       let m_out = mstr ^ ";bw=" ^ (if fe = "all" then "na" else Buffer.contents bw) ^ ";st=" ^ (if fe = "raw" || fe = "raw_loop" then String.concat "," (List.map string_of_n [h; m; e; rj]) else "na") in
        (* spec *)
        let (sres, content) =
          (match sem with
@@ -171,6 +171,59 @@ let handle (line : string) : string =
        let s = List.map (fun v -> match spec_get_key content (n_of_string v) with Some k -> hex_of_bytes k | None -> "~") vs in
        let m = List.map (fun v -> match api_get_key bs (n_of_string v) with Ok (Some k) -> hex_of_bytes k | Ok None -> "~" | _ -> "PANIC") vs in
        "S:" ^ String.concat "," s ^ "\tM:" ^ String.concat "," m
+     | _ -> "BADCASE")
+  | "fmt" ->
+    (* fmt <ty> <rows> <cols> <ops> \t@@\t <implementation line>: the format specification decodes the
+       bytes the IMPLEMENTATION wrote (S); the model builder's bytes are compared as M *)
+    (match Str.split (Str.regexp_string "\t@@\t") rest with
+     | [c; impl] ->
+       (match split_on ' ' c with
+        | [ty; rows; cols; ops] ->
+          let ops = parse_ops ops in
+          let ibytes =
+            (try
+               let i = Str.search_forward (Str.regexp_string "bytes=") impl 0 in
+               let j = (try String.index_from impl i '\t' with Not_found -> String.length impl) in
+               Some (bytes_of_hex (String.sub impl (i + 6) (j - i - 6)))
+             with Not_found -> None) in
+          let s_out = (match ibytes with
+              | None -> "NOBYTES"
+              | Some bs ->
+                (match spec_parse bs with
+                 | Some p when wf_fst_b bs ->
+                   "v=" ^ string_of_n p.p_version ^ ";ty=" ^ string_of_n p.p_ty ^ ";c=" ^ str_kvs p.p_content
+                   ^ ";len=" ^ string_of_n p.p_len ^ ";nodes=" ^ string_of_int (List.length p.p_nodes)
+                 | _ -> "MALFORMED")) in
+          let b0 = new_builder (n_of_string ty) (n_of_string rows) (n_of_string cols) in
+          let (b1, _) = run_extend b0 ops in
+          let m_out = (match b_finish summer b1 with Ok bs -> "bytes=" ^ hex_of_bytes bs | _ -> "PANIC") in
+          "S:" ^ s_out ^ "\tM:" ^ m_out
+        | _ -> "BADCASE")
+     | _ -> "BADCASE")
+  | "old" ->
+    (* old <version> <hex bytes> <ops> ; <probes> ; <calls>/… : reader model on a file of an older version *)
+    (match split_on ';' rest with
+     | [hd; probes; ranges] ->
+       (match split_on ' ' (trim hd) with
+        | [_v; hexb; ops] ->
+          let bs = bytes_of_hex hexb in
+          let content = spec_content None (parse_ops ops) [] in
+          let ps = List.filter (fun x -> x <> "") (split_on ' ' (trim probes)) in
+          let rs = List.map (fun r -> parse_calls (trim r)) (split_on '/' (trim ranges)) in
+          let s = "c=" ^ str_kvs content ^ ";len=" ^ string_of_int (List.length content) ^ ";g=" ^
+                  String.concat "," (List.map (fun p -> match lookup content (bytes_of_hex p) with Some v -> string_of_n v | None -> "~") ps) ^ ";r=" ^
+                  String.concat "/" (List.map (fun cs -> str_kvs (spec_range content cs)) rs) in
+          let m = "c=" ^ (match api_stream bs with Ok l -> str_kvs l | _ -> "PANIC") ^ ";len=" ^ string_of_n (api_len bs) ^ ";g=" ^
+                  String.concat "," (List.map (fun p -> match api_get bs (bytes_of_hex p) with Ok (Some v) -> string_of_n v | Ok None -> "~" | _ -> "PANIC") ps) ^ ";r=" ^
+                  String.concat "/" (List.map (fun cs -> match api_range bs cs with Ok l -> str_kvs l | _ -> "PANIC") rs) in
+          "S:" ^ s ^ "\tM:" ^ m
+        | _ -> "BADCASE")
+     | _ -> "BADCASE")
+  | "openclass" ->
+    (match split_on ' ' rest with
+     | [l; v] -> let c = int_of_n (spec_open_class (n_of_string l) (n_of_string v)) in
+       let s = List.nth ["ok"; "version"; "format"; "version-or-format"] c in
+       "S:" ^ s ^ "\tM:" ^ s
      | _ -> "BADCASE")
   | "encode" ->
     (* encode <version> <ops>: reference encoder of an older format version (used by the C10 generator) *)
